@@ -110,7 +110,8 @@ ENUM9 = [["set", "a", 1], ["set", "a", 2], ["set", "b", "{{a}}x"], ["store"], ["
 ENUM5 = [["set", "a", 1], ["set", "b", "{{a}}x"], ["store"], ["ucfs"],
          ["mkfn", {"filename": "{{b}}", "dirname": "{{a}}"}]]
 
-KEYS = ["a", "b", "c", "d.x", "d.y", "e.f.g", "a", "b", "r"]   # "r" is also a run-time key
+KEYS = ["a", "b", "c", "d.x", "d.y", "e.f.g", "a", "b", "r",    # "r" is also a run-time key
+        "a", "c", "d.x", "b", "output.prefix", "output.suffix"]   # static names of output.*
 CONSTS = [1, 2, "s", "t", True, 0, "", 3.5]
 FORMATS = ["{{a}}", "{{b}}_{{a}}", "p{{c}}", "{{d.x}}", "{{d.y}}{{a}}", "{{e.f.g}}", "{{d}}",
            "{{a}}{{a}}", "{{c}}-{{b}}"]
@@ -230,7 +231,10 @@ def _rand_leaf(rng, counter):
     if x < 0.66:
         return _label(["ucfs"], n)
     if x < 0.76:
-        fields = rng.sample(["filename", "dirname", "fileext"], rng.randint(1, 3))
+        # MakeFilename rejects filename together with prefix / suffix
+        pool = ["filename", "dirname", "fileext"] if rng.random() < 0.6 else \
+            ["prefix", "suffix", "dirname", "fileext", "prefix", "suffix"]
+        fields = sorted(set(rng.sample(pool, rng.randint(1, 3))))
         return _label(["mkfn", {f: rng.choice(MK_TEMPLATES) for f in sorted(fields)},
                        rng.random() < 0.15], n)
     if x < 0.84:
@@ -277,6 +281,10 @@ def _rand_split(rng, levels, counter):
             brs.append(["source", its, _pre(rng, its)])
         else:
             brs.append(["bare", [_rand_leaf(rng, counter)]])
+    if rng.random() < 0.3:
+        # copy_buf concerns the buffer of run-time values; the static context is handed to
+        # each branch as an independent copy whatever its value
+        return ["split", brs, {"copy_buf": False}]
     return ["split", brs]
 
 
@@ -292,9 +300,65 @@ def rand_tree(rng, maxlevels):
     return _rand_split(rng, max(levels, 1), counter)
 
 
+def _twostage():
+    """An inner sequence with two formatted SetContext elements that need DIFFERENT keys,
+    enclosed by something whose prefix resolves none / the first / the second / both."""
+    for m1, m2 in (("a", "b"), ("c", "a"), ("d.x", "b")):
+        inner_items = [["set", "t", "r{{%s}}" % m1], ["store", "s1"], ["data", "inc"],
+                       ["set", "l", "{{%s}}" % m2], ["store", "s2"]]
+        for resolve in ("none", "first", "second", "both"):
+            pre = []
+            if resolve in ("first", "both"):
+                pre.append(["set", m1, 3])
+            if resolve in ("second", "both"):
+                pre.append(["set", m2, "v"])
+            for shape in ("seq", "source", "split", "deep"):
+                inner = ["seq", copy.deepcopy(inner_items)]
+                p = copy.deepcopy(pre)
+                if shape == "seq":
+                    yield ["seq", p + [["data", "inc"], inner]]
+                elif shape == "source":
+                    yield ["source", p + [inner], 0]
+                elif shape == "split":
+                    yield ["seq", p + [["split", [inner, ["tuple", [["data", "inc"]]]]]]]
+                else:
+                    yield ["seq", p[:1] + [["seq", p[1:] + [["seq", [inner]]]]]]
+
+
+def _targeted():
+    """Small enumerated families around rarely used options."""
+    # Split(copy_buf=False): the static context is still copied per branch
+    for nested_key in ("d.x", "a"):
+        for first in (0, 1):
+            brs = [["tuple", [["set", "d.y" if nested_key == "d.x" else "b", 2], ["store", "sA"],
+                              ["data", "inc"]]],
+                   ["tuple", [["store", "sB"], ["write", "w1", "o_{{a}}"], ["data", "dbl"]]],
+                   ["seq", [["ucfs", "uC"], ["set", "c", "{{%s}}" % nested_key]]]]
+            if first:
+                brs = brs[1:] + brs[:1]
+            for kw in ({"copy_buf": False}, None):
+                sp = ["split", copy.deepcopy(brs)] + ([kw] if kw else [])
+                yield ["seq", [["set", nested_key, 1], ["set", "a", 5], sp, ["store", "sEnd"]]]
+    # static names of output.prefix / output.suffix and MakeFilename(prefix=..., suffix=...)
+    for static_key in ("output.prefix", "output.suffix", "output.filename"):
+        for fields in ({"prefix": "P{{a}}_"}, {"suffix": "_S"}, {"prefix": "P_", "suffix": "_S"},
+                       {"filename": "f{{a}}"}, {"prefix": "P_", "dirname": "{{a}}"}):
+            for with_ucfs in (0, 1):
+                items = [["set", "a", 1], ["set", static_key, "ST"]]
+                if with_ucfs:
+                    items.append(["ucfs", "u0"])
+                items += [["mkfn", "m1", dict(fields), False], ["data", "inc"],
+                          ["mkfn", "m2", {"filename": "name"}, False], ["store", "s9"]]
+                yield ["seq", items]
+
+
 def cases(tier, seed):
+    for tree in _targeted():
+        yield {"k": "tree", "tree": tree, "flow": FLOW, "vseed": 2, "nv": NVARIANTS[tier]}
     for tree in _enumerated(tier):
         yield {"k": "tree", "tree": tree, "flow": FLOW, "vseed": 0, "nv": NVARIANTS[tier]}
+    for tree in _twostage():
+        yield {"k": "tree", "tree": tree, "flow": FLOW, "vseed": 1, "nv": NVARIANTS[tier]}
     maxlevels = 3 if tier == "quick" else 4
     for i in range(NRANDOM[tier]):
         rng = gen.rng_for(seed, "C13", i)
@@ -359,7 +423,8 @@ def _build_item(it, root_dir, flow_r, b):
         pre = it[2] if len(it) > 2 else 0
         return lena.core.Source(*(items[:pre] + [_flow(flow_r)] + items[pre:]))
     elif k == "split":
-        return lena.core.Split([_build_item(br, root_dir, flow_r, b) for br in it[1]])
+        kw = it[2] if len(it) > 2 else {}
+        return lena.core.Split([_build_item(br, root_dir, flow_r, b) for br in it[1]], **kw)
     else:
         raise ValueError("unknown item %r" % (it,))
     b.els[it[1]] = el
@@ -752,6 +817,12 @@ def _case(r, obs, tmp):
         check_static(vtree, vrec, vobs, obs, "variant (%s)" % what, ctxinfo)
 
     # ---- (4) run the real tree, compare with the model's run
+    if any(it[0] == "split" and len(it) > 2 and it[2].get("copy_buf") is False
+           for _, it in M.walk(tree)):
+        # without copy_buf the branches share the run-time values by design: the run of the
+        # tree is outside the model (which gives every branch its own copy)
+        obs.count("runs_skipped_copy_buf_false")
+        return
     from rv.monitors import audit
     rdir = os.path.join(tmp, "run")
     B = build(tree, rdir, flow_r)
